@@ -375,6 +375,18 @@ func (db *DB) Merge() error {
 			return err
 		}
 
+		// If nothing has been rewritten so far the active file is still this segment:
+		// start a new active file first, otherwise later writes go to an unlinked file.
+		if db.ActiveFile != nil && db.ActiveFile.fileID == int64(pendingMergeFId) {
+			_ = db.ActiveFile.rwManager.Close()
+			db.MaxFileID++
+			if err := db.setActiveFile(); err != nil {
+				db.isMerging = false
+				f.rwManager.Close()
+				return err
+			}
+		}
+
 		if vf := verifOp("remove", db.getDataPath(int64(pendingMergeFId)), 0, 0, nil); vf != nil {
 			db.isMerging = false
 			f.rwManager.Close()
